@@ -63,17 +63,17 @@ theorem rangeOf_eq_rangeNH (p : List Blk) :
 
 /-- Accepted trace: what was owed before plus what the commits of the trace demand equals what was
 sent plus what is still owed. -/
-theorem Spec.notifs_balance (strict : Bool) : ∀ (tr : List SEv) (s s' : Spec), Spec.run strict s tr = .ok s' →
+theorem Spec.notifs_balance (m : Mode) : ∀ (tr : List SEv) (s s' : Spec), Spec.run m s tr = .ok s' →
     s.owed ++ expectedNotifs (s.pending.map (fun b => (b.num, b.hash))) tr = notifsOf tr ++ s'.owed
   | [], s, s', h => by
     simp only [Spec.run] at h; cases h; simp [expectedNotifs, notifsOf]
   | e :: tr, s, s', h => by
     simp only [Spec.run] at h
-    cases hst : Spec.step strict s e with
+    cases hst : Spec.step m s e with
     | error r => rw [hst] at h; cases h
     | ok s1 =>
       rw [hst] at h
-      have ih := Spec.notifs_balance strict tr s1 s' h
+      have ih := Spec.notifs_balance m tr s1 s' h
       cases e with
       | served r b =>
         simp only [Spec.step] at hst; cases hst
@@ -105,7 +105,9 @@ theorem Spec.notifs_balance (strict : Bool) : ∀ (tr : List SEv) (s s' : Spec),
           subst hs1
           simp only [expectedNotifs, notifsOf, Obs.isNotif, List.map_cons, hn, hhh] at ih ⊢
           exact ih
-        | revertFailed n hh => simp [Spec.step] at hst
+        | revertFailed n hh =>
+          simp only [Spec.step] at hst; cases hst
+          simpa [expectedNotifs, notifsOf, Obs.isNotif] using ih
         | newHead n hh =>
           simp only [Spec.step] at hst
           split at hst
@@ -175,31 +177,88 @@ theorem Linked.parent_of_succ {c : Chain} (h : Linked c) {x y : Blk} (hx : x ∈
         omega
       · exact ih h.tail hx' hy'
 
-/-- If every answer the node has seen is true of `src` and the hash is collision free, a justified
-revert removes a block that `src` does not contain. -/
-theorem justified_sound {u : List Blk} (hi : HashInj u) {ev : Evidence} {src c : Chain} {hd : Blk}
-    {tl : Chain} (hc : c = hd :: tl) (hlc : Linked c) (hls : Linked src)
-    (hcu : ∀ x ∈ c, x ∈ u) (hsu : ∀ x ∈ src, x ∈ u)
-    {strict : Bool} (hon : Honest ev src) (hj : justified strict ev c hd = true) : hd ∉ src := by
+/-- a block of `src` numbered like `hd` with another hash: `hd` is not in `src` -/
+theorem block_evidence_sound {src : Chain} (hls : Linked src) {hd b : Blk} (hb : b ∈ src)
+    (hn : b.num = hd.num) (hne : b.hash ≠ hd.hash) : hd ∉ src := by
+  intro hm
+  exact hne (congrArg Blk.hash (hls.eq_of_num hb hm hn))
+
+/-- a block of `src` numbered `r ≤ hd.num` that differs from the node's block `r`: `hd` (whose
+history contains the node's block `r`) is not in `src` -/
+theorem below_evidence_sound {u : List Blk} (hi : HashInj u) {src : Chain} {hd : Blk} {tl : Chain}
+    (hlc : Linked (hd :: tl)) (hls : Linked src) (hcu : ∀ x ∈ hd :: tl, x ∈ u) (hsu : ∀ x ∈ src, x ∈ u)
+    {n h : Nat} {lb : Blk} (hb : ∃ b ∈ src, b.num = n ∧ b.hash = h)
+    (hlook : byNumber? (hd :: tl) n = some lb) (hne : lb.hash ≠ h) : hd ∉ src := by
   intro hmem
+  obtain ⟨b, hbm, hbn, hbh⟩ := hb
+  have hsuf : (hd :: tl) <:+ src :=
+    Linked.suffix_of_head_mem hi hlc hls (fun x hx => hcu x (List.mem_cons_of_mem _ hx)) hsu hmem
+  obtain ⟨hlbm, hlbn⟩ := byNumber_mem_of_some hlook
+  have := hls.eq_of_num (hsuf.subset hlbm) hbm (by omega)
+  subst this
+  exact hne hbh
+
+/-- MODE `verified`: a justified revert is decided by ONE verified block `rb` the source served for
+its own height since the last store (so after `hd` was stored), and `hd` is absent from EVERY
+well-formed chain that contains `rb` — in particular from the source's chain at the moment that
+answer was computed, if the source told the truth then. Nothing is assumed about any other answer. -/
+theorem verified_revert_sound {ev : Evidence} {hd : Blk} {tl : Chain}
+    (hj : justified .verified ev (hd :: tl) hd = true) :
+    ∃ rb ∈ ev.rblocks, rb.2.ok = true ∧ rb.1 = rb.2.num ∧ rb.2.num ≤ hd.num ∧
+      ∀ (u : List Blk) (src : Chain), HashInj u → Linked (hd :: tl) → Linked src →
+        (∀ x ∈ hd :: tl, x ∈ u) → (∀ x ∈ src, x ∈ u) → rb.2 ∈ src → hd ∉ src := by
+  unfold justified at hj
+  simp only [List.any_eq_true, Bool.and_eq_true, beq_iff_eq, decide_eq_true_eq] at hj
+  obtain ⟨rb, hrb, ⟨⟨hok, hreq⟩, hle⟩, hlook⟩ := hj
+  refine ⟨rb, hrb, hok, hreq, hle, ?_⟩
+  intro u src hi hlc hls hcu hsu hm
+  split at hlook
+  · rename_i lb hlb
+    exact below_evidence_sound hi hlc hls hcu hsu ⟨rb.2, hm, rfl, rfl⟩ hlb (by simpa using hlook)
+  · cases hlook
+
+/-- MODE `fresh`: a justified revert is decided by one answer given since the last store: a block
+served for `hd`'s height with `hd`'s number and another hash (then `hd` is absent from every chain
+containing that block), or a latest header at or below `hd` that differs from the node's block
+there (then `hd` is absent from every chain that has a block with that number and hash — a bare
+header is an unverifiable claim: this is finding `…-unverifiable-latest-header`). -/
+theorem fresh_revert_sound {ev : Evidence} {hd : Blk} {tl : Chain}
+    (hj : justified .fresh ev (hd :: tl) hd = true) :
+    (∃ rb ∈ ev.rblocks, rb.1 = hd.num ∧ rb.2.num = hd.num ∧
+        ∀ src : Chain, Linked src → rb.2 ∈ src → hd ∉ src) ∨
+    (∃ l ∈ ev.rlatests, l.num ≤ hd.num ∧
+        ∀ (u : List Blk) (src : Chain), HashInj u → Linked (hd :: tl) → Linked src →
+          (∀ x ∈ hd :: tl, x ∈ u) → (∀ x ∈ src, x ∈ u) →
+          (∃ b ∈ src, b.num = l.num ∧ b.hash = l.hash) → hd ∉ src) := by
   unfold justified at hj
   simp only [Bool.or_eq_true, List.any_eq_true, Bool.and_eq_true, beq_iff_eq, bne_iff_ne, ne_eq,
     decide_eq_true_eq] at hj
-  rcases hj with (⟨rb, hrb, ⟨_, hnum⟩, hne⟩ | ⟨_, rb, hrb, ⟨_, hnum⟩, hne⟩) | ⟨l, hl, hle, hlook⟩
-  · exact hne (congrArg Blk.hash (hls.eq_of_num (hon.1 rb hrb) hmem hnum))
-  · exact hne (hls.parent_of_succ hmem (hon.1 rb hrb) hnum)
-  · obtain ⟨b, hb, hbn, hbh⟩ := hon.2 l hl
-    have hsuf : (hd :: tl) <:+ src := by
-      subst hc
-      exact Linked.suffix_of_head_mem hi hlc hls
-        (fun x hx => hcu x (List.mem_cons_of_mem _ hx)) hsu hmem
+  rcases hj with ⟨rb, hrb, ⟨hreq, hnum⟩, hne⟩ | ⟨l, hl, hle, hlook⟩
+  · exact Or.inl ⟨rb, hrb, hreq, hnum, fun src hls hm => block_evidence_sound hls hm hnum hne⟩
+  · refine Or.inr ⟨l, hl, hle, ?_⟩
+    intro u src hi hlc hls hcu hsu hb
     split at hlook
     · rename_i lb hlb
-      obtain ⟨hlbm, hlbn⟩ := byNumber_mem_of_some hlb
-      have : lb ∈ src := hsuf.subset (hc ▸ hlbm)
-      have := hls.eq_of_num this hb (by omega)
-      subst this
-      simp [hbh] at hlook
+      exact below_evidence_sound hi hlc hls hcu hsu hb hlb (by simpa using hlook)
+    · cases hlook
+
+/-- MODE `lenient` (the original code): if ALL answers ever seen are true of ONE chain `src` a
+justified revert removes a block not in `src` (regression lemma; the two newer modes need no such
+global hypothesis). -/
+theorem justified_sound {u : List Blk} (hi : HashInj u) {ev : Evidence} {src c : Chain} {hd : Blk}
+    {tl : Chain} (hc : c = hd :: tl) (hlc : Linked c) (hls : Linked src)
+    (hcu : ∀ x ∈ c, x ∈ u) (hsu : ∀ x ∈ src, x ∈ u)
+    (hon : Honest ev src) (hj : justified .lenient ev c hd = true) : hd ∉ src := by
+  subst hc
+  unfold justified at hj
+  simp only [Bool.or_eq_true, List.any_eq_true, Bool.and_eq_true, beq_iff_eq, bne_iff_ne, ne_eq,
+    decide_eq_true_eq] at hj
+  rcases hj with (⟨rb, hrb, ⟨_, hnum⟩, hne⟩ | ⟨rb, hrb, ⟨_, hnum⟩, hne⟩) | ⟨l, hl, hle, hlook⟩
+  · exact block_evidence_sound hls (hon.1 rb hrb) hnum hne
+  · intro hmem; exact hne (hls.parent_of_succ hmem (hon.1 rb hrb) hnum)
+  · split at hlook
+    · rename_i lb hlb
+      exact below_evidence_sound hi hlc hls hcu hsu (hon.2 l hl) hlb (by simpa using hlook)
     · cases hlook
 
 end Juno.C06
